@@ -299,6 +299,65 @@ def translate_build_mapping(src):
             "  else none\n")
 
 
+def translate_make_mapping_each(src):
+    """`make_mapping_each` of fci_graph.c (the operator-string maps behind every sparse apply): the two mask loops,
+    the admission test and the two descending loops that accumulate the parity, matched against the reviewed shape;
+    the helper names, the arrays they run over and the loop directions are read from the source"""
+    m = re.search(r"int\s+make_mapping_each\s*\(", src)
+    if not m:
+        raise SyntaxError("make_mapping_each not found")
+    i = src.index("{", m.end())
+    depth, j = 1, i + 1
+    while depth:
+        depth += {"{": 1, "}": -1}.get(src[j], 0)
+        j += 1
+    body = re.sub(r"\s+", " ", src[i:j])
+    up = r"for \(int (?P<v{n}>\w+) = 0; (?P=v{n}) != (?P<len{n}>\w+)_length; \+\+(?P=v{n})\)"
+    down = r"for \(int (?P<v{n}>\w+) = (?P<len{n}>\w+)_length ?- ?1; (?P=v{n}) >= 0; --(?P=v{n})\)"
+    pat = (r"\{ uint64_t dag_mask = 0; " + up.format(n=1) +
+           r" \{ dag_mask = (?P<m1>\w+)\(dag_mask, (?P<a1>\w+)\[(?P=v1)\]\); \} "
+           r"uint64_t undag_mask = 0; " + up.format(n=2) +
+           r" \{ undag_mask = (?P<m2>\w+)\(undag_mask, (?P<a2>\w+)\[(?P=v2)\]\); "
+           r"dag_mask = (?P<m3>\w+)\(dag_mask, (?P<a3>\w+)\[(?P=v2)\]\); \} "
+           r"int count = 0; for \(int i = 0; i < length; \+\+i\) \{ uint64_t current = strings\[i\]; "
+           r"const uint64_t dag_masked = current & dag_mask; const uint64_t undag_masked = current & undag_mask; "
+           r"const bool check = !dag_masked && !\(undag_masked \^ undag_mask\); if \(check\) \{ int parity = 0; " +
+           down.format(n=3) +
+           r" \{ parity \+= (?P<f3>\w+)\(current, (?P<a4>\w+)\[(?P=v3)\]\); current = (?P<m4>\w+)\(current, (?P<a5>\w+)\[(?P=v3)\]\); \} " +
+           down.format(n=4) +
+           r" \{ parity \+= (?P<f4>\w+)\(current, (?P<a6>\w+)\[(?P=v4)\]\); current = (?P<m5>\w+)\(current, (?P<a7>\w+)\[(?P=v4)\]\); \} "
+           r"out\[count \* 3\] = i; out\[count \* 3 \+ 1\] = current; out\[count \* 3 \+ 2\] = parity % 2; \+\+count; \} \} return count; \}")
+    mm = re.search(pat, body)
+    if not mm:
+        raise SyntaxError("make_mapping_each no longer has the reviewed shape")
+    g = mm.groupdict()
+    mac = {"SET_BIT": "set_bit", "UNSET_BIT": "unset_bit"}
+    for k in ("m1", "m2", "m3", "m4", "m5"):
+        if g[k] not in mac:
+            raise SyntaxError(f"unknown macro {g[k]}")
+    for k in ("f3", "f4"):
+        if g[k] != "count_bits_above":
+            raise SyntaxError(f"parity is no longer accumulated with count_bits_above ({g[k]})")
+    for a, b in (("a1", "len1"), ("a2", "len2"), ("a3", "len2"), ("a4", "len3"), ("a5", "len3"), ("a6", "len4"), ("a7", "len4")):
+        if g[a] != g[b] or g[a] not in ("dag", "undag"):
+            raise SyntaxError(f"loop over {g[b]} indexes {g[a]}")
+    return (
+        "/-- `fci_graph.c`, `make_mapping_each`: the two masks `(dag_mask, undag_mask)` after the two mask loops -/\n"
+        "def mme_masks (dag undag : List Nat) : BitVec 64 × BitVec 64 :=\n"
+        f"  let dag_mask := {g['a1']}.foldl (fun dag_mask x => {mac[g['m1']]} dag_mask x) 0#64\n"
+        f"  {g['a2']}.foldl (fun (st : BitVec 64 × BitVec 64) x => ({mac[g['m3']]} st.1 x, {mac[g['m2']]} st.2 x)) (dag_mask, 0#64)\n\n"
+        "/-- the admission test and the two descending loops for one string: `(target string, parity % 2)` -/\n"
+        "def mme_entry (current : BitVec 64) (dag undag : List Nat) : Option (BitVec 64 × Nat) :=\n"
+        "  let masks := mme_masks dag undag\n"
+        "  let dag_masked := current &&& masks.1\n"
+        "  let undag_masked := current &&& masks.2\n"
+        "  if (dag_masked == 0#64) && ((undag_masked ^^^ masks.2) == 0#64) then\n"
+        f"    let st := {g['a4']}.reverse.foldl (fun (st : BitVec 64 × Nat) x => ({mac[g['m4']]} st.1 x, st.2 + {g['f3']} st.1 x)) (current, 0)\n"
+        f"    let st := {g['a6']}.reverse.foldl (fun (st : BitVec 64 × Nat) x => ({mac[g['m5']]} st.1 x, st.2 + {g['f4']} st.1 x)) st\n"
+        "    some (st.1, st.2 % 2)\n"
+        "  else none\n")
+
+
 def main():
     h = open(os.path.join(REPO, "src/fqe/lib/bitstring.h")).read()
     c = open(os.path.join(REPO, "src/fqe/lib/bitstring.c")).read()
@@ -318,6 +377,7 @@ def main():
     parts.append(translate_macro(h, "UNSET_BIT", "unset_bit"))
     parts.append(translate_gosper(c))
     parts.append(translate_build_mapping(open(os.path.join(REPO, "src/fqe/lib/fci_graph.c")).read()))
+    parts.append(translate_make_mapping_each(open(os.path.join(REPO, "src/fqe/lib/fci_graph.c")).read()))
     parts.append("end GenC\n")
     text = "\n".join(parts)
     old = open(OUT).read() if os.path.exists(OUT) else None
